@@ -659,6 +659,14 @@ func (f *fsm) openSent() (fsmState, error) {
 					f.keepAliveInterval = f.holdTime / 3
 					f.keepAliveTimer = time.NewTimer(f.keepAliveInterval)
 					f.drainAndResetHoldTimer()
+				} else {
+					// https://tools.ietf.org/html/rfc4271#section-4.2
+					// A negotiated Hold Time of zero means that neither the
+					// HoldTimer nor the KeepaliveTimer run. Both must still be
+					// non-nil (and silent) for the selects that follow.
+					f.holdTimer.Stop()
+					f.keepAliveTimer = time.NewTimer(longHoldTime)
+					f.keepAliveTimer.Stop()
 				}
 
 				return openConfirmState, nil
@@ -739,7 +747,9 @@ func (f *fsm) openConfirm() (fsmState, error) {
 							- restarts the HoldTimer and
 							- changes its state to Established.
 					*/
-					f.drainAndResetHoldTimer()
+					if f.holdTime != 0 {
+						f.drainAndResetHoldTimer()
+					}
 					return establishedState, nil
 				case *Notification:
 					return idleState, newNotificationError(m, false)
